@@ -162,6 +162,7 @@ func buildAlphabet() []*opDef {
 	ops = append(ops, errorCallOps()...)
 	ops = append(ops, rebindOps()...)
 	ops = append(ops, argumentShapeOps()...)
+	ops = append(ops, loadScopeOps()...)
 	for _, o := range ops {
 		if o.form != nil {
 			o.src = o.form.render()
